@@ -1,0 +1,42 @@
+//go:build verif
+
+// Contracts for govc (/verif): C31 message sizes. Comment-only file.
+
+package common
+
+//@ -- MLenOf(ver): len(ver.Marshal()), the size of the SIGNED encoding (payload + signatures) of the transaction ver points to.
+//@ -- ABSTRACTION: a function of the pointer, i.e. the transaction is not mutated in a size-changing way while the functions
+//@ -- under contract run (they never write transaction fields other than the caches hash/pmbytes/validatedSize).
+//@ uninterp MLenOf(ver *VersionedTransaction) mathint
+
+//@ assume func (ver *VersionedTransaction) PayloadHash
+//@   requires ver != nil
+//@   modifies ver.hash, ver.pmbytes
+
+//@ assume func (ver *VersionedTransaction) Validate(store, snapTime, fork)
+//@   -- C05's subject; here only its frame matters: it caches sizes/hashes inside ver
+//@   requires ver != nil
+//@   modifies ver.hash, ver.pmbytes, ver.validatedSize
+
+//@ assume func (tx *Transaction) ValidatedSize
+//@   -- returns tx.validatedSize == len(PayloadMarshal()) as recorded by a successful Validate (which rejects sizes above
+//@   -- config.TransactionMaximumSize); panics when Validate has not run. The PAYLOAD size: signatures are not included.
+//@   requires tx != nil
+//@   modifies nothing
+//@   ensures 0 < result && result <= config.TransactionMaximumSize
+
+//@ assume func (tx *SignedTransaction) IsSnapshotBatchable
+//@   requires tx != nil
+//@   modifies nothing
+
+//@ assume func (tx *SignedTransaction) TransactionType
+//@   requires tx != nil
+//@   modifies nothing
+
+//@ -- SnapLenOf(s): len(s.VersionedMarshal()). The snapshot encoder and its size (a few KiB: at most 255 hashes) are C07's subject.
+//@ uninterp SnapLenOf(s *Snapshot) mathint
+
+//@ assume func (s *Snapshot) VersionedMarshal
+//@   requires s != nil
+//@   fresh
+//@   ensures len(result) == SnapLenOf(s) && 0 < len(result)
